@@ -226,10 +226,10 @@ class MCNP_Parser(Parser, metaclass=MetaBuilder):
         "shortcut_start REPEAT",
         "shortcut_start NUM_MULTIPLY",
         "shortcut_start MULTIPLY",
-        "shortcut_start NUM_INTERPOLATE padding number_phrase",
-        "shortcut_start INTERPOLATE padding number_phrase",
-        "shortcut_start NUM_LOG_INTERPOLATE padding number_phrase",
-        "shortcut_start LOG_INTERPOLATE padding number_phrase",
+        "shortcut_start NUM_INTERPOLATE padding numerical_phrase",
+        "shortcut_start INTERPOLATE padding numerical_phrase",
+        "shortcut_start NUM_LOG_INTERPOLATE padding numerical_phrase",
+        "shortcut_start LOG_INTERPOLATE padding numerical_phrase",
         "NUM_JUMP",
         "JUMP",
     )
